@@ -17,12 +17,12 @@ CLAIMED = {
                      'evaluator protocol (add_func / add_compiled_sympy_object, helpers inlined from their own source) is '
                      'played on every history of <= 4 steps over {evaluate ode, evaluate another evaluator, modify the model, '
                      "add a parameter, assign parameter values} against 'what a freshly built model returns'; call-graph "
-                     'closure of definition-state writers + CFG must-pass-through of trip(); registry/canary agreement; '
+                     'closure of definition-state writers (helpers called only from generators belong to the generators) + CFG must-pass-through of trip(); registry/canary agreement; the flag class itself interpreted on all histories of <= 3 operations (trip, reset, flag = False, flag = True) over two objects sharing class-level attributes; '
                      'cache-refresh dominance; all sequences of three parameter assignments'),
         "level": ('Decides, for all histories up to the stated length, that no evaluator returns a value compiled from an '
                      'earlier definition, symbol order or parameter values; for all histories at once, that every write to '
                      '(computed) model-definition state reaches trip() on every normal exit, that every registered evaluator '
-                     'has a flag in the operative per-instance canary, that generators refresh the caches they read. Does not '
+                     'has a flag in the operative canary, that the flag object follows its protocol (new/tripped: all set; reset and `= False` clear exactly one flag of one object; `= True` sets nothing; objects independent; names that contain one another are distinct), that generators refresh the caches they read. Does not '
                      'decide that the regenerated expression is compiled correctly (library).'),
         "note": _TB,
     },
@@ -135,17 +135,18 @@ CLAIMED = {
                      'builders interpreted on enumerated definitions for order independence'),
         "level": "Decides that every route (Event, Transition with own rate, legacy lists, birth by origin or destination) "
                  "normalises a T/B/D process to the same (rate, type, origin, destination, magnitude); that Event accepts "
-                 "iff exactly one rate is supplied and keeps it; that setters delegate all elements in order; that both "
+                 "iff exactly one rate is supplied and keeps it; that setters delegate all listed processes in order (also processes that differ only in magnitude, a process listed twice, and lists assigned to a model that already holds a process), that the constructor hands every keyword list to the setter of its own kind; that both "
                  "declaration helpers split strings identically; that builders accumulate additively.",
         "note": _TB,
     },
     "C06": {
-        "technique": "static analysis: argument binding of the integrator call in _getSolution; abstract execution of the "
+        "technique": "static analysis by abstract interpretation of the syntax tree (nothing of /repo is imported or run): argument binding of the integrator call in _getSolution; abstract execution of the "
                      "name->index helpers (14 name orders) and of _setParam/_setParamStateInput/_unrollState over enumerated "
-                     "target subsets; constructor -> BaseLoss -> kernel wiring by parameter binding",
+                     "target subsets; every loss class constructed by interpreting its own __init__ through super() into BaseLoss.__init__ and back into its "
+                     "_setLossType with recording kernel classes (positional and keyword calls); _setX0 interpreted on array / list / tuple input with an aliasing probe",
         "level": "Decides row/observation matching (integration exactly at the copied observation times, no origin row), "
                  "column selection in the supplied state order, that theta[i] goes to target_param[i] and state values to "
-                 "their named states in all cases, and that each loss class builds its own kernel from (y, weights, spread). "
+                 "their named states in all cases, that each loss class ends up holding the kernel named after it, built on the caller's observations, the broadcast of the caller's weights and (where it has one) spread, with theta, x0, t0, t and the model forwarded unchanged, and that the stored initial state does not share memory with the caller's array. "
                  "Does not decide the numerical value of the loss or zero cost at the generating parameters.",
         "note": _TB,
     },
